@@ -312,7 +312,11 @@ def run_harness(engine, scen_file, out_prefix, workers=None, extra=(), timeout=1
     caller), are skipped, and the batch is run again."""
     w = workers or WORKERS
     crashed = []
+    import glob as _glob
     for attempt in range(6):
+        for stale in _glob.glob(out_prefix + ".*"):        # partial traces of an attempt that died must not be judged
+            if os.path.isfile(stale) and ".one" not in os.path.basename(stale):
+                os.unlink(stale)
         p = _run_harness_once(engine, scen_file, out_prefix, w, extra, timeout, tags, env)
         if p.returncode == 0:
             break
